@@ -329,4 +329,7 @@ fire("c04-getattr-in-handler", ["C04"], MSG, '                    f"in message t
 fire("c04-stopiteration-elsewhere", ["C04"], RDR, "        byten = self._read_line()  # NMEA protocol is CRLF-terminated\n", "        byten = self._read_line()  # NMEA protocol is CRLF-terminated\n        if not byten.endswith(b\"\\r\\n\"):\n            raise StopIteration\n")
 silent("c04-length-guard-style", ["C04", "C15"], [(MSG, "        if len(self._payload) < 2:\n", "        if not len(self._payload) >= 2:\n")], "equivalent guard")
 
+fire("c13-class-counter", ["C13"], MSG, "        self._unknown = False\n", "        self._unknown = False\n        RTCMMessage.parsed_count = getattr(RTCMMessage, \"parsed_count\", 0) + 1\n", "class-level counter written by every parse")
+silent("c08-gate-trailer-compare", ["C08", "C01", "C05", "C17"], [(RDR, "            if calc_crc24q(message):", "            if calc_crc24q(message[:-3]) != int.from_bytes(message[-3:], \"big\"):")], "equivalent CRC test (computed remainder vs transmitted trailer)")
+
 VARIANTS = V
